@@ -794,105 +794,7 @@ Proof.
   reflexivity.
 Qed.
 
-Section InverseLaw.
-
-(* What the proof needs to know about FormatNumber(float64(n), layout) — three facts about the
-   layouts "1" and "01" (validated against the real FormatNumber for every n in these ranges by
-   the vector generator, and to be discharged by the FormatNumber model). *)
-Variable fi : Z -> string -> lres string.
-Hypothesis fi_year : forall n, 1000 <= n <= 9999 -> fi n "1" = LOk (dig4 n).
-Hypothesis fi_2 : forall n, 0 <= n <= 99 -> fi n "01" = LOk (dig2 n).
-Hypothesis fi_2neg : forall n, -99 <= n < 0 -> fi n "01" = LOk (String "-" (dig2 (- n))).
-
-(* --- symbolic execution of FormatTime on a closed picture --- *)
-
-Lemma ft_step_plain t pic st cur r : (r =? 91) = false -> (r =? 93) = false ->
-  format_time_step fi t pic st (cur, r) = LOk st.
-Proof. intros H1 H2. unfold format_time_step. now rewrite H1, H2. Qed.
-
-Lemma ft_step_open t pic start dcb ex res cur :
-  format_time_step fi t pic
-    {| fs_start := start; fs_in_marker := false; fs_dcb := dcb; fs_expanded := ex; fs_result := res |}
-    (cur, 91) =
-  lbind (slice_checked pic start cur) (fun lit =>
-    LOk {| fs_start := S cur; fs_in_marker := true; fs_dcb := dcb; fs_expanded := ex;
-           fs_result := res ++ lit |}).
-Proof. reflexivity. Qed.
-
-Lemma ft_step_close t pic start dcb ex res cur : (cur =? start)%nat = false ->
-  format_time_step fi t pic
-    {| fs_start := start; fs_in_marker := true; fs_dcb := dcb; fs_expanded := ex; fs_result := res |}
-    (cur, 93) =
-  lbind (slice_checked pic start cur) (fun body =>
-  lbind (expand_variable_marker fi t body) (fun s =>
-    LOk {| fs_start := S cur; fs_in_marker := false; fs_dcb := dcb; fs_expanded := true;
-           fs_result := res ++ s |})).
-Proof.
-  intros H. unfold format_time_step. change (93 =? 91) with false. change (93 =? 93) with true.
-  cbv iota. cbn [fs_in_marker fs_start fs_dcb fs_expanded fs_result]. now rewrite H.
-Qed.
-
-(* the markers of the default pictures *)
-Lemma evm_decimal t body c fmt n :
-  parse_variable_marker body = LOk (c, {| mk_format := fmt; mk_modifier := ModNone; mk_minw := 0; mk_maxw := 0 |}) ->
-  seqb fmt "" = false ->
-  (forall mk, mk_format mk = fmt -> mk_modifier mk = ModNone ->
-              expand_date_component fi t c mk = format_integer_component fi n mk) ->
-  forall s, fi n fmt = LOk s ->
-  expand_variable_marker fi t body = LOk s.
-Proof.
-  intros Hp Hne Hc s Hfi. unfold expand_variable_marker. rewrite Hp. cbn [lbind mk_format].
-  rewrite Hne. rewrite Hc by reflexivity.
-  unfold format_integer_component. cbn [mk_format mk_modifier]. rewrite Hfi. reflexivity.
-Qed.
-
-Lemma evm_default t body c n :
-  parse_variable_marker body = LOk (c, zero_marker) ->
-  (forall mk, mk_format mk = default_date_format c -> mk_modifier mk = ModNone ->
-              expand_date_component fi t c mk = format_integer_component fi n mk) ->
-  forall s, fi n (default_date_format c) = LOk s ->
-  expand_variable_marker fi t body = LOk s.
-Proof.
-  intros Hp Hc s Hfi. unfold expand_variable_marker. rewrite Hp. cbn [lbind mk_format zero_marker].
-  change (seqb "" "") with true. cbv iota.
-  rewrite Hc by reflexivity.
-  unfold format_integer_component, with_default_format. cbn [mk_format mk_modifier]. rewrite Hfi. reflexivity.
-Qed.
-
-Lemma edc_Y t mk : mk_format mk = "1"%string -> mk_modifier mk = ModNone -> mk_maxw mk = 0 ->
-  expand_date_component fi t cY mk = format_integer_component fi (t_year t) mk.
-Proof.
-  intros Hf Hm Hw. unfold expand_date_component. change (cY =? cY) with true. cbv iota.
-  unfold format_year. rewrite Hf, Hw. reflexivity.
-Qed.
-
-Ltac edc_dec :=
-  let Hf := fresh in let Hm := fresh in
-  intros Hf Hm; unfold expand_date_component;
-  repeat match goal with |- context [?a =? ?b] =>
-    let v := eval vm_compute in (a =? b) in change (a =? b) with v end;
-  cbv iota; unfold format_decimal_field, format_month, format_hour; rewrite Hf; reflexivity.
-
-Lemma edc_M t mk : mk_format mk = "01"%string -> mk_modifier mk = ModNone ->
-  expand_date_component fi t cM mk = format_integer_component fi (t_month t) mk.
-Proof. edc_dec. Qed.
-Lemma edc_D t mk : mk_format mk = "01"%string -> mk_modifier mk = ModNone ->
-  expand_date_component fi t cD mk = format_integer_component fi (t_day t) mk.
-Proof. edc_dec. Qed.
-Lemma edc_H t mk : mk_format mk = "01"%string -> mk_modifier mk = ModNone ->
-  expand_date_component fi t cH mk = format_integer_component fi (t_hour t) mk.
-Proof. edc_dec. Qed.
-Lemma edc_m t mk : mk_format mk = "01"%string -> mk_modifier mk = ModNone ->
-  expand_date_component fi t cm mk = format_integer_component fi (t_minute t) mk.
-Proof. edc_dec. Qed.
-Lemma edc_s t mk : mk_format mk = "01"%string -> mk_modifier mk = ModNone ->
-  expand_date_component fi t cs mk = format_integer_component fi (t_second t) mk.
-Proof. edc_dec. Qed.
-
-Lemma ft_loop_cons t pic cr l st :
-  format_time_loop fi t pic (cr :: l) st =
-  lbind (format_time_step fi t pic st cr) (format_time_loop fi t pic l).
-Proof. reflexivity. Qed.
+(* --- facts about time.Parse and the calendar fields that do not involve FormatNumber --- *)
 
 (* the text of the zone for [Z01:01t]: "Z" for UTC, else sign, hours, ":", minutes — the sign
    is that of the HOUR part (so offsets in (-1h, 0) get a "+": a defect, see below) *)
@@ -900,41 +802,6 @@ Definition ztext (h m : Z) : string :=
   if (h =? 0) && (m =? 0) then "Z"%string
   else if 0 <=? h then String "+" (dig2 h ++ String ":" (dig2 (Z.abs m)))
   else String "-" (dig2 (- h) ++ String ":" (dig2 (Z.abs m))).
-
-Lemma format_timezone_default t name h m mk :
-  get_timezone_info t = (name, h, m) -> -99 <= h <= 99 -> -99 <= m <= 99 ->
-  mk_format mk = "01:01"%string -> mk_modifier mk = ModTraditional -> mk_minw mk = 0 ->
-  format_timezone fi t mk false = LOk (ztext h m).
-Proof.
-  intros Hi Hh Hm Hf Hmod Hw. unfold format_timezone. rewrite Hi, Hf, Hmod, Hw.
-  change (get_timezone_style "01:01") with (TzSplit "01" "01" ":").
-  cbn [is_traditional andb]. unfold ztext.
-  destruct ((h =? 0) && (m =? 0)) eqn:E0.
-  - cbn [lbind andb]. reflexivity.
-  - unfold format_timezone_split.
-    rewrite (fi_2 (Z.abs m)) by lia.
-    destruct (0 <=? h) eqn:Eh.
-    + rewrite (fi_2 h) by lia. cbn [lbind lmap andb]. unfold pad_right.
-      change (0 <? 0) with false. cbv iota. reflexivity.
-    + rewrite (fi_2neg h) by lia. cbn [lbind lmap andb]. unfold pad_right.
-      change (0 <? 0) with false. cbv iota. reflexivity.
-Qed.
-
-Ltac ft_one :=
-  rewrite ft_loop_cons;
-  lazymatch goal with
-  | |- context [format_time_step _ _ _ _ (_, 91)] =>
-      rewrite ft_step_open;
-      match goal with |- context [slice_checked ?p ?a ?b] =>
-        let v := eval vm_compute in (slice_checked p a b) in change (slice_checked p a b) with v end;
-      cbn [lbind]
-  | |- context [format_time_step _ _ _ _ (_, 93)] =>
-      rewrite ft_step_close by reflexivity;
-      match goal with |- context [slice_checked ?p ?a ?b] =>
-        let v := eval vm_compute in (slice_checked p a b) in change (slice_checked p a b) with v end;
-      cbn [lbind]
-  | |- _ => rewrite ft_step_plain by reflexivity; cbn [lbind]
-  end.
 
 Lemma t_fields_range t :
   1 <= t_month t <= 12 /\ 1 <= t_day t <= 31 /\ 0 <= t_hour t <= 23 /\
@@ -947,111 +814,6 @@ Proof.
   { unfold days_in_month. destruct (m =? 2); [destruct (is_leap y); lia|].
     destruct ((m =? 4) || (m =? 6) || (m =? 9) || (m =? 11)); lia. }
   repeat split; try lia.
-Qed.
-
-Lemma evm_Y t : 1000 <= t_year t <= 9999 ->
-  expand_variable_marker fi t "Y" = LOk (dig4 (t_year t)).
-Proof.
-  intros Hy. unfold expand_variable_marker.
-  change (parse_variable_marker "Y") with (@LOk (Z * marker) (cY, zero_marker)).
-  cbn [lbind mk_format zero_marker]. change (seqb "" "") with true. cbv iota.
-  rewrite edc_Y by reflexivity.
-  unfold format_integer_component, with_default_format. cbn [mk_format mk_modifier].
-  change (default_date_format cY) with "1"%string. rewrite fi_year by exact Hy. reflexivity.
-Qed.
-
-Lemma evm_two t body c n :
-  parse_variable_marker body = LOk (c, {| mk_format := "01"; mk_modifier := ModNone; mk_minw := 0; mk_maxw := 0 |}) ->
-  (forall mk, mk_format mk = "01"%string -> mk_modifier mk = ModNone ->
-              expand_date_component fi t c mk = format_integer_component fi n mk) ->
-  0 <= n <= 99 ->
-  expand_variable_marker fi t body = LOk (dig2 n).
-Proof.
-  intros Hp Hc Hn. unfold expand_variable_marker. rewrite Hp. cbn [lbind mk_format].
-  change (seqb "01" "") with false. cbv iota. rewrite Hc by reflexivity.
-  unfold format_integer_component. cbn [mk_format mk_modifier]. rewrite fi_2 by exact Hn. reflexivity.
-Qed.
-
-Lemma evm_two_default t body c n :
-  parse_variable_marker body = LOk (c, zero_marker) -> default_date_format c = "01"%string ->
-  (forall mk, mk_format mk = "01"%string -> mk_modifier mk = ModNone ->
-              expand_date_component fi t c mk = format_integer_component fi n mk) ->
-  0 <= n <= 99 ->
-  expand_variable_marker fi t body = LOk (dig2 n).
-Proof.
-  intros Hp Hd Hc Hn. unfold expand_variable_marker. rewrite Hp. cbn [lbind mk_format zero_marker].
-  change (seqb "" "") with true. cbv iota. unfold with_default_format. rewrite Hd.
-  rewrite Hc by reflexivity.
-  unfold format_integer_component. cbn [mk_format mk_modifier]. rewrite fi_2 by exact Hn. reflexivity.
-Qed.
-
-Lemma evm_f001 t : expand_variable_marker fi t "f001" = LOk (format_nano (t_nanosecond t) 3).
-Proof. reflexivity. Qed.
-
-Lemma evm_Z t name h m :
-  get_timezone_info t = (name, h, m) -> -99 <= h <= 99 -> -99 <= m <= 99 ->
-  expand_variable_marker fi t "Z01:01t" = LOk (ztext h m).
-Proof.
-  intros Hi Hh Hm. unfold expand_variable_marker.
-  change (parse_variable_marker "Z01:01t") with
-    (@LOk (Z * marker) (cZ, {| mk_format := "01:01"; mk_modifier := ModTraditional; mk_minw := 0; mk_maxw := 0 |})).
-  cbn [lbind mk_format]. change (seqb "01:01" "") with false. cbv iota.
-  unfold expand_date_component.
-  repeat match goal with |- context [cZ =? ?b] =>
-    let v := eval vm_compute in (cZ =? b) in change (cZ =? b) with v end.
-  cbv iota. rewrite (format_timezone_default t name h m) by (auto; reflexivity). reflexivity.
-Qed.
-
-(* FormatTime on the default picture *)
-Lemma format_time_default t name h m :
-  1000 <= t_year t <= 9999 ->
-  get_timezone_info t = (name, h, m) -> -99 <= h <= 99 -> -99 <= m <= 99 ->
-  format_time fi t default_format_time_layout =
-  LOk (dig4 (t_year t) ++ "-" ++ dig2 (t_month t) ++ "-" ++ dig2 (t_day t) ++ "T" ++
-       dig2 (t_hour t) ++ ":" ++ dig2 (t_minute t) ++ ":" ++ dig2 (t_second t) ++ "." ++
-       format_nano (t_nanosecond t) 3 ++ ztext h m)%string.
-Proof.
-  intros Hy Hi Hh Hm.
-  destruct (t_fields_range t) as (RM & RD & RH & Rm & Rs).
-  pose proof (evm_Y t Hy) as EY.
-  pose proof (evm_two t "M01" cM (t_month t) eq_refl (edc_M t) ltac:(lia)) as EM.
-  pose proof (evm_two t "D01" cD (t_day t) eq_refl (edc_D t) ltac:(lia)) as ED.
-  pose proof (evm_two t "H01" cH (t_hour t) eq_refl (edc_H t) ltac:(lia)) as EH.
-  pose proof (evm_two_default t "m" cm (t_minute t) eq_refl eq_refl (edc_m t) ltac:(lia)) as Em.
-  pose proof (evm_two_default t "s" cs (t_second t) eq_refl eq_refl (edc_s t) ltac:(lia)) as Es.
-  pose proof (evm_f001 t) as Ef.
-  pose proof (evm_Z t name h m Hi Hh Hm) as EZ.
-  unfold format_time, default_format_time_layout.
-  let l := eval vm_compute in (runes_pos "[Y]-[M01]-[D01]T[H01]:[m]:[s].[f001][Z01:01t]") in
-  change (runes_pos "[Y]-[M01]-[D01]T[H01]:[m]:[s].[f001][Z01:01t]") with l.
-  repeat (ft_one; try first [rewrite EY | rewrite EM | rewrite ED | rewrite EH | rewrite Em
-                            | rewrite Es | rewrite Ef | rewrite EZ]; cbn [lbind]).
-  cbn [format_time_loop lbind fs_in_marker fs_expanded negb fs_result fs_start].
-  change (sdrop 45 "[Y]-[M01]-[D01]T[H01]:[m]:[s].[f001][Z01:01t]") with ""%string.
-  f_equal. cbn [append]. rewrite !sapp_assoc, sapp_nil_r. cbn [append]. reflexivity.
-Qed.
-
-(* the layouts ToMillis derives from the default parse pictures *)
-Lemma ref_layout_1 :
-  format_time fi ref_time "[Y]-[M01]-[D01]T[H01]:[m]:[s][Z01:01t]" = LOk "2006-01-02T15:04:05-07:00"%string.
-Proof.
-  set (t := ref_time).
-  assert (1000 <= t_year t <= 9999) as Hy by (vm_compute; split; discriminate).
-  destruct (t_fields_range t) as (RM & RD & RH & Rm & Rs).
-  pose proof (evm_Y t Hy) as EY.
-  pose proof (evm_two t "M01" cM (t_month t) eq_refl (edc_M t) ltac:(lia)) as EM.
-  pose proof (evm_two t "D01" cD (t_day t) eq_refl (edc_D t) ltac:(lia)) as ED.
-  pose proof (evm_two t "H01" cH (t_hour t) eq_refl (edc_H t) ltac:(lia)) as EH.
-  pose proof (evm_two_default t "m" cm (t_minute t) eq_refl eq_refl (edc_m t) ltac:(lia)) as Em.
-  pose proof (evm_two_default t "s" cs (t_second t) eq_refl eq_refl (edc_s t) ltac:(lia)) as Es.
-  pose proof (evm_Z t "MST" (-7) 0 eq_refl ltac:(lia) ltac:(lia)) as EZ.
-  unfold format_time.
-  let l := eval vm_compute in (runes_pos "[Y]-[M01]-[D01]T[H01]:[m]:[s][Z01:01t]") in
-  change (runes_pos "[Y]-[M01]-[D01]T[H01]:[m]:[s][Z01:01t]") with l.
-  repeat (ft_one; try first [rewrite EY | rewrite EM | rewrite ED | rewrite EH | rewrite Em
-                            | rewrite Es | rewrite EZ]; cbn [lbind]).
-  cbn [format_time_loop lbind fs_in_marker fs_expanded negb fs_result fs_start].
-  vm_compute. reflexivity.
 Qed.
 
 (* --- symbolic execution of time.Parse on the layout "2006-01-02T15:04:05Z07:00" --- *)
@@ -1250,6 +1012,247 @@ Qed.
 Definition local_year (ms off : Z) : Z :=
   let '(y, _, _) := civil_of_days ((ms / 1000 + off) / 86400) in y.
 
+
+Section InverseLaw.
+
+(* What the proof needs to know about FormatNumber(float64(n), layout) — three facts about the
+   layouts "1" and "01" (validated against the real FormatNumber for every n in these ranges by
+   the vector generator, and to be discharged by the FormatNumber model). *)
+Variable fi : Z -> string -> lres string.
+Hypothesis fi_year : forall n, 1000 <= n <= 9999 -> fi n "1" = LOk (dig4 n).
+Hypothesis fi_2 : forall n, 0 <= n <= 99 -> fi n "01" = LOk (dig2 n).
+Hypothesis fi_2neg : forall n, -99 <= n < 0 -> fi n "01" = LOk (String "-" (dig2 (- n))).
+
+(* --- symbolic execution of FormatTime on a closed picture --- *)
+
+Lemma ft_step_plain t pic st cur r : (r =? 91) = false -> (r =? 93) = false ->
+  format_time_step fi t pic st (cur, r) = LOk st.
+Proof. intros H1 H2. unfold format_time_step. now rewrite H1, H2. Qed.
+
+Lemma ft_step_open t pic start dcb ex res cur :
+  format_time_step fi t pic
+    {| fs_start := start; fs_in_marker := false; fs_dcb := dcb; fs_expanded := ex; fs_result := res |}
+    (cur, 91) =
+  lbind (slice_checked pic start cur) (fun lit =>
+    LOk {| fs_start := S cur; fs_in_marker := true; fs_dcb := dcb; fs_expanded := ex;
+           fs_result := res ++ lit |}).
+Proof. reflexivity. Qed.
+
+Lemma ft_step_close t pic start dcb ex res cur : (cur =? start)%nat = false ->
+  format_time_step fi t pic
+    {| fs_start := start; fs_in_marker := true; fs_dcb := dcb; fs_expanded := ex; fs_result := res |}
+    (cur, 93) =
+  lbind (slice_checked pic start cur) (fun body =>
+  lbind (expand_variable_marker fi t body) (fun s =>
+    LOk {| fs_start := S cur; fs_in_marker := false; fs_dcb := dcb; fs_expanded := true;
+           fs_result := res ++ s |})).
+Proof.
+  intros H. unfold format_time_step. change (93 =? 91) with false. change (93 =? 93) with true.
+  cbv iota. cbn [fs_in_marker fs_start fs_dcb fs_expanded fs_result]. now rewrite H.
+Qed.
+
+(* the markers of the default pictures *)
+Lemma evm_decimal t body c fmt n :
+  parse_variable_marker body = LOk (c, {| mk_format := fmt; mk_modifier := ModNone; mk_minw := 0; mk_maxw := 0 |}) ->
+  seqb fmt "" = false ->
+  (forall mk, mk_format mk = fmt -> mk_modifier mk = ModNone ->
+              expand_date_component fi t c mk = format_integer_component fi n mk) ->
+  forall s, fi n fmt = LOk s ->
+  expand_variable_marker fi t body = LOk s.
+Proof.
+  intros Hp Hne Hc s Hfi. unfold expand_variable_marker. rewrite Hp. cbn [lbind mk_format].
+  rewrite Hne. rewrite Hc by reflexivity.
+  unfold format_integer_component. cbn [mk_format mk_modifier]. rewrite Hfi. reflexivity.
+Qed.
+
+Lemma evm_default t body c n :
+  parse_variable_marker body = LOk (c, zero_marker) ->
+  (forall mk, mk_format mk = default_date_format c -> mk_modifier mk = ModNone ->
+              expand_date_component fi t c mk = format_integer_component fi n mk) ->
+  forall s, fi n (default_date_format c) = LOk s ->
+  expand_variable_marker fi t body = LOk s.
+Proof.
+  intros Hp Hc s Hfi. unfold expand_variable_marker. rewrite Hp. cbn [lbind mk_format zero_marker].
+  change (seqb "" "") with true. cbv iota.
+  rewrite Hc by reflexivity.
+  unfold format_integer_component, with_default_format. cbn [mk_format mk_modifier]. rewrite Hfi. reflexivity.
+Qed.
+
+Lemma edc_Y t mk : mk_format mk = "1"%string -> mk_modifier mk = ModNone -> mk_maxw mk = 0 ->
+  expand_date_component fi t cY mk = format_integer_component fi (t_year t) mk.
+Proof.
+  intros Hf Hm Hw. unfold expand_date_component. change (cY =? cY) with true. cbv iota.
+  unfold format_year. rewrite Hf, Hw. reflexivity.
+Qed.
+
+Ltac edc_dec :=
+  let Hf := fresh in let Hm := fresh in
+  intros Hf Hm; unfold expand_date_component;
+  repeat match goal with |- context [?a =? ?b] =>
+    let v := eval vm_compute in (a =? b) in change (a =? b) with v end;
+  cbv iota; unfold format_decimal_field, format_month, format_hour; rewrite Hf; reflexivity.
+
+Lemma edc_M t mk : mk_format mk = "01"%string -> mk_modifier mk = ModNone ->
+  expand_date_component fi t cM mk = format_integer_component fi (t_month t) mk.
+Proof. edc_dec. Qed.
+Lemma edc_D t mk : mk_format mk = "01"%string -> mk_modifier mk = ModNone ->
+  expand_date_component fi t cD mk = format_integer_component fi (t_day t) mk.
+Proof. edc_dec. Qed.
+Lemma edc_H t mk : mk_format mk = "01"%string -> mk_modifier mk = ModNone ->
+  expand_date_component fi t cH mk = format_integer_component fi (t_hour t) mk.
+Proof. edc_dec. Qed.
+Lemma edc_m t mk : mk_format mk = "01"%string -> mk_modifier mk = ModNone ->
+  expand_date_component fi t cm mk = format_integer_component fi (t_minute t) mk.
+Proof. edc_dec. Qed.
+Lemma edc_s t mk : mk_format mk = "01"%string -> mk_modifier mk = ModNone ->
+  expand_date_component fi t cs mk = format_integer_component fi (t_second t) mk.
+Proof. edc_dec. Qed.
+
+Lemma ft_loop_cons t pic cr l st :
+  format_time_loop fi t pic (cr :: l) st =
+  lbind (format_time_step fi t pic st cr) (format_time_loop fi t pic l).
+Proof. reflexivity. Qed.
+
+Lemma format_timezone_default t name h m mk :
+  get_timezone_info t = (name, h, m) -> -99 <= h <= 99 -> -99 <= m <= 99 ->
+  mk_format mk = "01:01"%string -> mk_modifier mk = ModTraditional -> mk_minw mk = 0 ->
+  format_timezone fi t mk false = LOk (ztext h m).
+Proof.
+  intros Hi Hh Hm Hf Hmod Hw. unfold format_timezone. rewrite Hi, Hf, Hmod, Hw.
+  change (get_timezone_style "01:01") with (TzSplit "01" "01" ":").
+  cbn [is_traditional andb]. unfold ztext.
+  destruct ((h =? 0) && (m =? 0)) eqn:E0.
+  - cbn [lbind andb]. reflexivity.
+  - unfold format_timezone_split.
+    rewrite (fi_2 (Z.abs m)) by lia.
+    destruct (0 <=? h) eqn:Eh.
+    + rewrite (fi_2 h) by lia. cbn [lbind lmap andb]. unfold pad_right.
+      change (0 <? 0) with false. cbv iota. reflexivity.
+    + rewrite (fi_2neg h) by lia. cbn [lbind lmap andb]. unfold pad_right.
+      change (0 <? 0) with false. cbv iota. reflexivity.
+Qed.
+
+Ltac ft_one :=
+  rewrite ft_loop_cons;
+  lazymatch goal with
+  | |- context [format_time_step _ _ _ _ (_, 91)] =>
+      rewrite ft_step_open;
+      match goal with |- context [slice_checked ?p ?a ?b] =>
+        let v := eval vm_compute in (slice_checked p a b) in change (slice_checked p a b) with v end;
+      cbn [lbind]
+  | |- context [format_time_step _ _ _ _ (_, 93)] =>
+      rewrite ft_step_close by reflexivity;
+      match goal with |- context [slice_checked ?p ?a ?b] =>
+        let v := eval vm_compute in (slice_checked p a b) in change (slice_checked p a b) with v end;
+      cbn [lbind]
+  | |- _ => rewrite ft_step_plain by reflexivity; cbn [lbind]
+  end.
+
+Lemma evm_Y t : 1000 <= t_year t <= 9999 ->
+  expand_variable_marker fi t "Y" = LOk (dig4 (t_year t)).
+Proof.
+  intros Hy. unfold expand_variable_marker.
+  change (parse_variable_marker "Y") with (@LOk (Z * marker) (cY, zero_marker)).
+  cbn [lbind mk_format zero_marker]. change (seqb "" "") with true. cbv iota.
+  rewrite edc_Y by reflexivity.
+  unfold format_integer_component, with_default_format. cbn [mk_format mk_modifier].
+  change (default_date_format cY) with "1"%string. rewrite fi_year by exact Hy. reflexivity.
+Qed.
+
+Lemma evm_two t body c n :
+  parse_variable_marker body = LOk (c, {| mk_format := "01"; mk_modifier := ModNone; mk_minw := 0; mk_maxw := 0 |}) ->
+  (forall mk, mk_format mk = "01"%string -> mk_modifier mk = ModNone ->
+              expand_date_component fi t c mk = format_integer_component fi n mk) ->
+  0 <= n <= 99 ->
+  expand_variable_marker fi t body = LOk (dig2 n).
+Proof.
+  intros Hp Hc Hn. unfold expand_variable_marker. rewrite Hp. cbn [lbind mk_format].
+  change (seqb "01" "") with false. cbv iota. rewrite Hc by reflexivity.
+  unfold format_integer_component. cbn [mk_format mk_modifier]. rewrite fi_2 by exact Hn. reflexivity.
+Qed.
+
+Lemma evm_two_default t body c n :
+  parse_variable_marker body = LOk (c, zero_marker) -> default_date_format c = "01"%string ->
+  (forall mk, mk_format mk = "01"%string -> mk_modifier mk = ModNone ->
+              expand_date_component fi t c mk = format_integer_component fi n mk) ->
+  0 <= n <= 99 ->
+  expand_variable_marker fi t body = LOk (dig2 n).
+Proof.
+  intros Hp Hd Hc Hn. unfold expand_variable_marker. rewrite Hp. cbn [lbind mk_format zero_marker].
+  change (seqb "" "") with true. cbv iota. unfold with_default_format. rewrite Hd.
+  rewrite Hc by reflexivity.
+  unfold format_integer_component. cbn [mk_format mk_modifier]. rewrite fi_2 by exact Hn. reflexivity.
+Qed.
+
+Lemma evm_f001 t : expand_variable_marker fi t "f001" = LOk (format_nano (t_nanosecond t) 3).
+Proof. reflexivity. Qed.
+
+Lemma evm_Z t name h m :
+  get_timezone_info t = (name, h, m) -> -99 <= h <= 99 -> -99 <= m <= 99 ->
+  expand_variable_marker fi t "Z01:01t" = LOk (ztext h m).
+Proof.
+  intros Hi Hh Hm. unfold expand_variable_marker.
+  change (parse_variable_marker "Z01:01t") with
+    (@LOk (Z * marker) (cZ, {| mk_format := "01:01"; mk_modifier := ModTraditional; mk_minw := 0; mk_maxw := 0 |})).
+  cbn [lbind mk_format]. change (seqb "01:01" "") with false. cbv iota.
+  unfold expand_date_component.
+  repeat match goal with |- context [cZ =? ?b] =>
+    let v := eval vm_compute in (cZ =? b) in change (cZ =? b) with v end.
+  cbv iota. rewrite (format_timezone_default t name h m) by (auto; reflexivity). reflexivity.
+Qed.
+
+(* FormatTime on the default picture *)
+Lemma format_time_default t name h m :
+  1000 <= t_year t <= 9999 ->
+  get_timezone_info t = (name, h, m) -> -99 <= h <= 99 -> -99 <= m <= 99 ->
+  format_time fi t default_format_time_layout =
+  LOk (dig4 (t_year t) ++ "-" ++ dig2 (t_month t) ++ "-" ++ dig2 (t_day t) ++ "T" ++
+       dig2 (t_hour t) ++ ":" ++ dig2 (t_minute t) ++ ":" ++ dig2 (t_second t) ++ "." ++
+       format_nano (t_nanosecond t) 3 ++ ztext h m)%string.
+Proof.
+  intros Hy Hi Hh Hm.
+  destruct (t_fields_range t) as (RM & RD & RH & Rm & Rs).
+  pose proof (evm_Y t Hy) as EY.
+  pose proof (evm_two t "M01" cM (t_month t) eq_refl (edc_M t) ltac:(lia)) as EM.
+  pose proof (evm_two t "D01" cD (t_day t) eq_refl (edc_D t) ltac:(lia)) as ED.
+  pose proof (evm_two t "H01" cH (t_hour t) eq_refl (edc_H t) ltac:(lia)) as EH.
+  pose proof (evm_two_default t "m" cm (t_minute t) eq_refl eq_refl (edc_m t) ltac:(lia)) as Em.
+  pose proof (evm_two_default t "s" cs (t_second t) eq_refl eq_refl (edc_s t) ltac:(lia)) as Es.
+  pose proof (evm_f001 t) as Ef.
+  pose proof (evm_Z t name h m Hi Hh Hm) as EZ.
+  unfold format_time, default_format_time_layout.
+  let l := eval vm_compute in (runes_pos "[Y]-[M01]-[D01]T[H01]:[m]:[s].[f001][Z01:01t]") in
+  change (runes_pos "[Y]-[M01]-[D01]T[H01]:[m]:[s].[f001][Z01:01t]") with l.
+  repeat (ft_one; try first [rewrite EY | rewrite EM | rewrite ED | rewrite EH | rewrite Em
+                            | rewrite Es | rewrite Ef | rewrite EZ]; cbn [lbind]).
+  cbn [format_time_loop lbind fs_in_marker fs_expanded negb fs_result fs_start].
+  change (sdrop 45 "[Y]-[M01]-[D01]T[H01]:[m]:[s].[f001][Z01:01t]") with ""%string.
+  f_equal. cbn [append]. rewrite !sapp_assoc, sapp_nil_r. cbn [append]. reflexivity.
+Qed.
+
+(* the layouts ToMillis derives from the default parse pictures *)
+Lemma ref_layout_1 :
+  format_time fi ref_time "[Y]-[M01]-[D01]T[H01]:[m]:[s][Z01:01t]" = LOk "2006-01-02T15:04:05-07:00"%string.
+Proof.
+  set (t := ref_time).
+  assert (1000 <= t_year t <= 9999) as Hy by (vm_compute; split; discriminate).
+  destruct (t_fields_range t) as (RM & RD & RH & Rm & Rs).
+  pose proof (evm_Y t Hy) as EY.
+  pose proof (evm_two t "M01" cM (t_month t) eq_refl (edc_M t) ltac:(lia)) as EM.
+  pose proof (evm_two t "D01" cD (t_day t) eq_refl (edc_D t) ltac:(lia)) as ED.
+  pose proof (evm_two t "H01" cH (t_hour t) eq_refl (edc_H t) ltac:(lia)) as EH.
+  pose proof (evm_two_default t "m" cm (t_minute t) eq_refl eq_refl (edc_m t) ltac:(lia)) as Em.
+  pose proof (evm_two_default t "s" cs (t_second t) eq_refl eq_refl (edc_s t) ltac:(lia)) as Es.
+  pose proof (evm_Z t "MST" (-7) 0 eq_refl ltac:(lia) ltac:(lia)) as EZ.
+  unfold format_time.
+  let l := eval vm_compute in (runes_pos "[Y]-[M01]-[D01]T[H01]:[m]:[s][Z01:01t]") in
+  change (runes_pos "[Y]-[M01]-[D01]T[H01]:[m]:[s][Z01:01t]") with l.
+  repeat (ft_one; try first [rewrite EY | rewrite EM | rewrite ED | rewrite EH | rewrite Em
+                            | rewrite Es | rewrite EZ]; cbn [lbind]).
+  cbn [format_time_loop lbind fs_in_marker fs_expanded negb fs_result fs_start].
+  vm_compute. reflexivity.
+Qed.
+
 (* General form: what $toMillis returns on the default rendering of ms at offset off — the
    instant shifted by the difference between the true offset and the offset the text denotes. *)
 Lemma to_millis_from_millis_default_gen : forall ms tz off,
@@ -1357,7 +1360,7 @@ Print Assumptions offset_sign_defect.
 
 (* the three FormatNumber facts are satisfiable, and the theorems apply to concrete instances *)
 Definition fi_example (n : Z) (layout : string) : lres string :=
-  if seqb layout "1" then LOk (dig4 n)
+  if seqb layout "1" || seqb layout "0001" then LOk (dig4 n)
   else if 0 <=? n then LOk (dig2 n) else LOk (String "-" (dig2 (- n))).
 
 Example inverse_law_ex :
@@ -1366,9 +1369,9 @@ Example inverse_law_ex :
 Proof.
   apply (to_millis_from_millis_default_partial fi_example) with (off := 19800).
   - intros n H. reflexivity.
-  - intros n H. unfold fi_example. change (seqb "01" "1") with false. cbv iota.
+  - intros n H. unfold fi_example. change (seqb "01" "1" || seqb "01" "0001") with false. cbv iota.
     destruct (0 <=? n) eqn:E; [reflexivity|lia].
-  - intros n H. unfold fi_example. change (seqb "01" "1") with false. cbv iota.
+  - intros n H. unfold fi_example. change (seqb "01" "1" || seqb "01" "0001") with false. cbv iota.
     destruct (0 <=? n) eqn:E; [lia|reflexivity].
   - right. exists "+0530"%string. split; [reflexivity|]. split; [discriminate|reflexivity].
   - reflexivity.
@@ -1382,6 +1385,7 @@ Example offset_sign_defect_ex :
   from_millis fi_example 0 None (Some "-0030"%string) = LOk "1969-12-31T23:30:00.000+00:30"%string /\
   to_millis fi_example "1969-12-31T23:30:00.000+00:30" None None = LOk (-3600000).
 Proof. vm_compute. split; reflexivity. Qed.
+
 
 (* ------------------------------------------------------------------------------------------ *)
 (** * Invalid time zones are errors; ToMillis ignores its tz argument *)
@@ -1523,3 +1527,252 @@ Example english_names :
   map (hd ""%string) en_days =
     ["Sunday"; "Monday"; "Tuesday"; "Wednesday"; "Thursday"; "Friday"; "Saturday"]%string.
 Proof. split; reflexivity. Qed.
+
+(* ------------------------------------------------------------------------------------------ *)
+(** * 6b. The same law through the explicit picture
+        [Y0001]-[M01]-[D01]T[H01]:[m01]:[s01].[f001][Z01:01] *)
+
+Definition explicit_picture : string := "[Y0001]-[M01]-[D01]T[H01]:[m01]:[s01].[f001][Z01:01]".
+
+(* zone text of [Z01:01] (no 't' modifier): always numeric *)
+Definition ztext_num (h m : Z) : string :=
+  if 0 <=? h then String "+" (dig2 h ++ String ":" (dig2 (Z.abs m)))
+  else String "-" (dig2 (- h) ++ String ":" (dig2 (Z.abs m))).
+
+(* seconds followed by ".ddd" when the layout continues with ".000": left to the next element *)
+Lemma pe_zerosecond_layoutfrac n k rest p : 0 <= n <= 59 -> 0 <= k <= 999 ->
+  parse_elem StdZeroSecond ".000Z07:00" (dig2 n ++ String "." (dig3 k ++ rest)) p
+  = Some (set_sec n p, String "." (dig3 k ++ rest)).
+Proof.
+  intros Hn Hk. unfold parse_elem. rewrite getnum_dig2 by lia.
+  destruct ((n <? 0) || (60 <=? n)) eqn:E; [lia|]. cbv zeta.
+  assert ((2 <=? slen (String "." (dig3 k ++ rest)))%nat = true) as -> by reflexivity.
+  change (byte_at (String "." (dig3 k ++ rest)) 0) with 46.
+  change ((46 =? 46) || (46 =? 44)) with true.
+  assert (is_digit_at (String "." (dig3 k ++ rest)) 1 = true) as ->
+    by (unfold is_digit_at, byte_at, dig3; cbn [append String.get]; apply is_digit_dch; lia).
+  cbn [andb].
+  change (next_std_chunk ".000Z07:00") with (""%string, StdFracSecond0 3, "Z07:00"%string).
+  reflexivity.
+Qed.
+
+Lemma pe_frac0_3 suf k rest p : 0 <= k <= 999 ->
+  parse_elem (StdFracSecond0 3) suf (String "." (dig3 k ++ rest)) p
+  = Some (set_nsec (k * 1000000) p, rest).
+Proof.
+  intros Hk. unfold parse_elem. change (Z.to_nat (1 + 3)) with 4%nat.
+  assert ((slen (String "." (dig3 k ++ rest)) <? 4)%nat = false) as -> by reflexivity.
+  unfold parse_nanoseconds.
+  change (byte_at (String "." (dig3 k ++ rest)) 0) with 46.
+  change (negb ((46 =? 46) || (46 =? 44))) with false. cbv iota.
+  change (10 <? 4)%nat with false. cbv iota.
+  assert (sslice 1 4 (String "." (dig3 k ++ rest)) = dig3 k) as -> by reflexivity.
+  rewrite time_atoi_dig3 by exact Hk.
+  destruct (k <? 0) eqn:E2; [lia|].
+  assert (sdrop 4 (String "." (dig3 k ++ rest)) = rest) as -> by reflexivity.
+  change (10 ^ Z.of_nat (10 - 4)) with 1000000. reflexivity.
+Qed.
+
+Lemma parse_explicit_text y mo d H mi s k h m :
+  0 <= y <= 9999 -> 1 <= mo <= 12 -> 1 <= d <= days_in_month y mo -> 0 <= H <= 23 ->
+  0 <= mi <= 59 -> 0 <= s <= 59 -> 0 <= k <= 999 -> -24 <= h <= 24 -> -59 <= m <= 59 ->
+  exists t',
+    go_time_parse "2006-01-02T15:04:05.000Z07:00"
+      (dig4 y ++ "-" ++ dig2 mo ++ "-" ++ dig2 d ++ "T" ++ dig2 H ++ ":" ++ dig2 mi ++ ":" ++
+       dig2 s ++ "." ++ dig3 k ++ ztext_num h m) = LOk t' /\
+    unix_sec t' = days_of_civil y mo d * 86400 + H * 3600 + mi * 60 + s - zoff_of h m /\
+    nsec t' = k * 1000000.
+Proof.
+  intros Hy Hmo Hd HH Hmi Hs Hk Hh Hm.
+  assert (d <= 31) as Hd31.
+  { destruct Hd as [_ Hd]. unfold days_in_month in Hd. destruct (mo =? 2); [destruct (is_leap y); lia|].
+    destruct ((mo =? 4) || (mo =? 6) || (mo =? 9) || (mo =? 11)); lia. }
+  unfold go_time_parse.
+  change (S (slen "2006-01-02T15:04:05.000Z07:00")) with 30%nat.
+  pl_step. rewrite pe_longyear by lia. cbv iota beta.
+  pl_step. rewrite pe_zeromonth by lia. cbv iota beta.
+  pl_step. rewrite pe_zeroday by lia. cbv iota beta.
+  pl_step. rewrite pe_hour by lia. cbv iota beta.
+  pl_step. rewrite pe_zerominute by lia. cbv iota beta.
+  pl_step. rewrite pe_zerosecond_layoutfrac by lia. cbv iota beta.
+  pl_step. rewrite pe_frac0_3 by lia. cbv iota beta.
+  pl_step.
+  unfold ztext_num, zoff_of.
+  destruct (0 <=? h) eqn:Eh.
+  + rewrite (pe_zone_num "+" h (Z.abs m)) by (auto; lia). cbv iota beta. pl_step. cbn [lbind].
+    change (Ascii.eqb "+" "-") with false. cbv iota.
+    match goal with |- context [set_zoff ?z _] => remember z as zz eqn:Ezz end.
+    unfold parse_finish. cbn.
+    replace (mo <? 0) with false by lia. replace (d <? 0) with false by lia. cbv iota.
+    replace ((d <? 1) || (days_in_month y mo <? d)) with false by lia.
+    replace (zz =? -1) with false by lia. cbn [negb].
+    eexists; split; [reflexivity|]. cbn [unix_sec nsec]. split; [lia|reflexivity].
+  + rewrite (pe_zone_num "-" (- h) (Z.abs m)) by (auto; lia). cbv iota beta. pl_step. cbn [lbind].
+    change (Ascii.eqb "-" "-") with true. cbv iota.
+    match goal with |- context [set_zoff ?z _] => remember z as zz eqn:Ezz end.
+    unfold parse_finish. cbn.
+    replace (mo <? 0) with false by lia. replace (d <? 0) with false by lia. cbv iota.
+    replace ((d <? 1) || (days_in_month y mo <? d)) with false by lia.
+    replace (zz =? -1) with false by lia. cbn [negb].
+    eexists; split; [reflexivity|]. cbn [unix_sec nsec]. split; [lia|reflexivity].
+Qed.
+
+Section InverseLawExplicit.
+
+Variable fi : Z -> string -> lres string.
+Hypothesis fi_4 : forall n, 0 <= n <= 9999 -> fi n "0001" = LOk (dig4 n).
+Hypothesis fi_2 : forall n, 0 <= n <= 99 -> fi n "01" = LOk (dig2 n).
+Hypothesis fi_2neg : forall n, -99 <= n < 0 -> fi n "01" = LOk (String "-" (dig2 (- n))).
+
+Lemma evm_Y0001 t : 0 <= t_year t <= 9999 ->
+  expand_variable_marker fi t "Y0001" = LOk (dig4 (t_year t)).
+Proof.
+  intros Hy. unfold expand_variable_marker.
+  change (parse_variable_marker "Y0001") with
+    (@LOk (Z * marker) (cY, {| mk_format := "0001"; mk_modifier := ModNone; mk_minw := 0; mk_maxw := 0 |})).
+  cbn [lbind mk_format]. change (seqb "0001" "") with false. cbv iota.
+  rewrite component_year by reflexivity. cbv zeta. cbn [mk_maxw mk_format].
+  change (count_digits_hash "0001") with 4.
+  change (0 <=? 0) with true. change (2 <=? 4) with true. cbv iota.
+  change (0 <? 4) with true. cbv iota.
+  change (pow10 4) with 10000. change (10000 =? 0) with false. cbv iota.
+  replace (Z.rem (t_year t) 10000) with (t_year t) by lia.
+  unfold format_integer_component. cbn [mk_format mk_modifier]. rewrite fi_4 by exact Hy. reflexivity.
+Qed.
+
+Lemma evm_Znum t name h m :
+  get_timezone_info t = (name, h, m) -> -99 <= h <= 99 -> -99 <= m <= 99 ->
+  expand_variable_marker fi t "Z01:01" = LOk (ztext_num h m).
+Proof.
+  intros Hi Hh Hm. unfold expand_variable_marker.
+  change (parse_variable_marker "Z01:01") with
+    (@LOk (Z * marker) (cZ, {| mk_format := "01:01"; mk_modifier := ModNone; mk_minw := 0; mk_maxw := 0 |})).
+  cbn [lbind mk_format]. change (seqb "01:01" "") with false. cbv iota.
+  unfold expand_date_component.
+  repeat match goal with |- context [cZ =? ?b] =>
+    let v := eval vm_compute in (cZ =? b) in change (cZ =? b) with v end.
+  cbv iota. unfold format_timezone. rewrite Hi. cbn [mk_format mk_modifier mk_minw].
+  change (get_timezone_style "01:01") with (TzSplit "01" "01" ":").
+  cbn [is_traditional andb]. unfold ztext_num, format_timezone_split.
+  rewrite (fi_2 (Z.abs m)) by lia.
+  destruct (0 <=? h) eqn:Eh.
+  + rewrite (fi_2 h) by lia. cbn [lbind lmap andb]. unfold pad_right.
+    change (0 <? 0) with false. cbv iota. reflexivity.
+  + rewrite (fi_2neg h) by lia. cbn [lbind lmap andb]. unfold pad_right.
+    change (0 <? 0) with false. cbv iota. reflexivity.
+Qed.
+
+Ltac ft_one' :=
+  rewrite ft_loop_cons;
+  lazymatch goal with
+  | |- context [format_time_step _ _ _ _ (_, 91)] =>
+      rewrite ft_step_open;
+      match goal with |- context [slice_checked ?p ?a ?b] =>
+        let v := eval vm_compute in (slice_checked p a b) in change (slice_checked p a b) with v end;
+      cbn [lbind]
+  | |- context [format_time_step _ _ _ _ (_, 93)] =>
+      rewrite ft_step_close by reflexivity;
+      match goal with |- context [slice_checked ?p ?a ?b] =>
+        let v := eval vm_compute in (slice_checked p a b) in change (slice_checked p a b) with v end;
+      cbn [lbind]
+  | |- _ => rewrite ft_step_plain by reflexivity; cbn [lbind]
+  end.
+
+Lemma format_time_explicit t name h m :
+  0 <= t_year t <= 9999 ->
+  get_timezone_info t = (name, h, m) -> -99 <= h <= 99 -> -99 <= m <= 99 ->
+  format_time fi t explicit_picture =
+  LOk (dig4 (t_year t) ++ "-" ++ dig2 (t_month t) ++ "-" ++ dig2 (t_day t) ++ "T" ++
+       dig2 (t_hour t) ++ ":" ++ dig2 (t_minute t) ++ ":" ++ dig2 (t_second t) ++ "." ++
+       format_nano (t_nanosecond t) 3 ++ ztext_num h m)%string.
+Proof.
+  intros Hy Hi Hh Hm.
+  destruct (t_fields_range t) as (RM & RD & RH & Rm & Rs).
+  pose proof (evm_Y0001 t Hy) as EY.
+  pose proof (evm_two fi fi_2 t "M01" cM (t_month t) eq_refl (edc_M fi t) ltac:(lia)) as EM.
+  pose proof (evm_two fi fi_2 t "D01" cD (t_day t) eq_refl (edc_D fi t) ltac:(lia)) as ED.
+  pose proof (evm_two fi fi_2 t "H01" cH (t_hour t) eq_refl (edc_H fi t) ltac:(lia)) as EH.
+  pose proof (evm_two fi fi_2 t "m01" cm (t_minute t) eq_refl (edc_m fi t) ltac:(lia)) as Em.
+  pose proof (evm_two fi fi_2 t "s01" cs (t_second t) eq_refl (edc_s fi t) ltac:(lia)) as Es.
+  pose proof (evm_f001 fi t) as Ef.
+  pose proof (evm_Znum t name h m Hi Hh Hm) as EZ.
+  unfold format_time, explicit_picture.
+  let l := eval vm_compute in (runes_pos "[Y0001]-[M01]-[D01]T[H01]:[m01]:[s01].[f001][Z01:01]") in
+  change (runes_pos "[Y0001]-[M01]-[D01]T[H01]:[m01]:[s01].[f001][Z01:01]") with l.
+  repeat (ft_one'; try first [rewrite EY | rewrite EM | rewrite ED | rewrite EH | rewrite Em
+                             | rewrite Es | rewrite Ef | rewrite EZ]; cbn [lbind]).
+  cbn [format_time_loop lbind fs_in_marker fs_expanded negb fs_result fs_start].
+  change (sdrop 53 "[Y0001]-[M01]-[D01]T[H01]:[m01]:[s01].[f001][Z01:01]") with ""%string.
+  f_equal. cbn [append]. rewrite !sapp_assoc, sapp_nil_r. cbn [append]. reflexivity.
+Qed.
+
+Lemma ref_layout_explicit :
+  format_time fi ref_time explicit_picture = LOk "2006-01-02T15:04:05.000-07:00"%string.
+Proof.
+  rewrite (format_time_explicit ref_time "MST" (-7) 0); [vm_compute; reflexivity| |reflexivity|lia|lia].
+  vm_compute. split; discriminate.
+Qed.
+
+(** PARTIAL: the inverse law through the explicit picture, same domain restrictions as for the
+    default picture (local year 0..9999 suffices here, since [Y0001] pads the year). *)
+Theorem to_millis_from_millis_explicit_partial : forall ms tz off,
+  (tz = None /\ off = 0) \/
+  (exists s, tz = Some s /\ s <> EmptyString /\ parse_time_zone s = LOk (off, s)) ->
+  off mod 60 = 0 -> -90000 < off < 90000 -> ~ (-3600 < off < 0) ->
+  0 <= local_year ms off <= 9999 ->
+  - two63 <= ms * 1000000 < two63 ->
+  exists text, from_millis fi ms (Some explicit_picture) tz = LOk text /\
+               to_millis fi text (Some explicit_picture) tz = LOk ms.
+Proof.
+  intros ms tz off Htz Hmin Hrange Hsign Hyear Hwrap.
+  destruct (ms_to_time_fields ms) as (Fs & Fn & Fo & Fz).
+  assert (exists t, unix_sec t = ms / 1000 /\ nsec t = (ms mod 1000) * 1000000 /\ offset t = off /\
+                    from_millis fi ms (Some explicit_picture) tz = format_time fi t explicit_picture)
+    as (t & Ts & Tn & To & Hfrom).
+  { destruct Htz as [[-> ->] | (s & -> & Hne & Hp)].
+    - exists (ms_to_time ms). repeat split; auto.
+    - exists (time_in (ms_to_time ms) off s). cbn [time_in unix_sec nsec offset]. repeat split; auto.
+      unfold from_millis. cbn [opt_string].
+      assert (seqb s "" = false) as -> by (destruct s; [congruence|reflexivity]).
+      rewrite Hp. reflexivity. }
+  set (h := Z.quot off 3600) in *. set (m := Z.quot (Z.rem off 3600) 60) in *.
+  assert (get_timezone_info t = (zname t, h, m)) as Hi by (unfold get_timezone_info; now rewrite To).
+  assert (-24 <= h <= 24) as Hh by (subst h; lia).
+  assert (-59 <= m <= 59) as Hm by (subst m; lia).
+  assert (t_year t = local_year ms off) as Hty
+    by (unfold t_year, local_year, t_days, t_local_sec; now rewrite Ts, To).
+  rewrite Hfrom, (format_time_explicit t (zname t) h m) by (try rewrite Hty; auto; lia).
+  eexists; split; [reflexivity|].
+  unfold to_millis. cbn [opt_string]. change (seqb explicit_picture "") with false. cbv iota.
+  cbn [to_millis_loop]. unfold parse_time at 1.
+  rewrite ref_layout_explicit.
+  change (replace_minus7 "2006-01-02T15:04:05.000-07:00") with "2006-01-02T15:04:05.000Z07:00"%string.
+  unfold t_nanosecond. rewrite Tn, format_nano_ms by lia.
+  destruct (t_fields_range t) as (RM & RD & RH & Rm & Rs).
+  pose proof (civil_bijection (t_days t)) as Hb.
+  assert (t_year t = let '(y, _, _) := civil_of_days (t_days t) in y) as Ey by reflexivity.
+  assert (t_month t = let '(_, mo, _) := civil_of_days (t_days t) in mo) as Emo by reflexivity.
+  assert (t_day t = let '(_, _, d) := civil_of_days (t_days t) in d) as Ed by reflexivity.
+  destruct (civil_of_days (t_days t)) as [[y mo] d]. destruct Hb as (Hdays & Hmo & Hd).
+  rewrite Ey, Emo, Ed in *.
+  destruct (parse_explicit_text y mo d (t_hour t) (t_minute t) (t_second t) (ms mod 1000) h m)
+    as (t' & Hparse & Hu & Hn); try lia.
+  rewrite Hparse. f_equal.
+  unfold time_to_ms, unix_nano. rewrite Hu, Hn, Hdays.
+  assert (zoff_of h m = off) as Hz by (unfold zoff_of; subst h m; destruct (0 <=? Z.quot off 3600) eqn:E; lia).
+  rewrite Hz.
+  assert (t_days t * 86400 + t_hour t * 3600 + t_minute t * 60 + t_second t = ms / 1000 + off) as Hloc.
+  { unfold t_days, t_hour, t_minute, t_second, t_sod, t_local_sec. rewrite Ts, To.
+    generalize (ms / 1000 + off). intros L. lia. }
+  rewrite Hloc.
+  replace ((ms / 1000 + off - off) * 1000000000 + ms mod 1000 * 1000000) with (ms * 1000000) by lia.
+  rewrite wrap64_id by exact Hwrap. lia.
+Qed.
+End InverseLawExplicit.
+Print Assumptions to_millis_from_millis_explicit_partial.
+
+Example inverse_law_explicit_ex :
+  from_millis fi_example (-1) (Some explicit_picture) (Some "-0730"%string)
+    = LOk "1969-12-31T16:29:59.999-07:30"%string /\
+  to_millis fi_example "1969-12-31T16:29:59.999-07:30" (Some explicit_picture) None = LOk (-1).
+Proof. vm_compute. split; reflexivity. Qed.
